@@ -698,6 +698,27 @@ class Evaluator:
             if k is not None and k.denominator == 1 and 0 <= k <= 8:
                 return powi(a, int(k))
             return ("op", "pow", (a, b))
+        ia, ib = _as_int(a), _as_int(b)
+        if ia is not None and ib is not None:
+            try:
+                if isinstance(op, ast.FloorDiv) and ib != 0:
+                    return num(ia // ib)
+                if isinstance(op, ast.Mod) and ib != 0:
+                    return num(ia % ib)
+                if isinstance(op, ast.LShift) and 0 <= ib < 64:
+                    return num(ia << ib)
+                if isinstance(op, ast.RShift) and 0 <= ib < 64:
+                    return num(ia >> ib)
+                if isinstance(op, ast.BitOr):
+                    return num(ia | ib)
+                if isinstance(op, ast.BitAnd):
+                    return num(ia & ib)
+                if isinstance(op, ast.BitXor):
+                    return num(ia ^ ib)
+                if isinstance(op, ast.Pow) and 0 <= ib < 64:
+                    return num(ia ** ib)
+            except (ValueError, OverflowError):
+                pass
         if isinstance(op, ast.FloorDiv):
             return ("op", "floordiv", (a, b))
         if isinstance(op, ast.Mod):
@@ -823,6 +844,13 @@ class Evaluator:
                 cond = ("op", "and", tuple(x[0] if x[1] else ("op", "not", (x[0],)) for x in conds))
             out = ("ite", cond, v, out)
         return out
+
+
+def _as_int(t):
+    v = num_value(t)
+    if v is not None and v.denominator == 1:
+        return int(v)
+    return None
 
 
 def _is_generator(fnode):
